@@ -248,6 +248,11 @@ func genFidelity(c *ctx) {
 		if fc.big && fc.chunk > 0 && fc.chunk < 100 {
 			fc.chunk = 100 // megabytes in 1-2 byte reads through pipes (and relays) do not finish within the harness deadline
 		}
+		if fc.cfg.overwrite && fc.shape == 0 && fc.chunk > 0 && fc.chunk < 100 {
+			// these cases get the 300-400 KB resume.bin added below: the same limit applies (group seed
+			// 44444: download, 2 relays, 1-2 byte reads ran into the 40 s deadline on the unchanged tree)
+			fc.chunk = 100
+		}
 		// corner configurations that are always part of the run, whatever the random draw
 		switch i {
 		case 0: // legacy protocol 1, binary upload, 16k chunks of bytes the table escapes (escaped chunk > bufsize)
